@@ -1479,3 +1479,8 @@ srctie.wire_mut(globals(), 'C10')
 PROOF_MODULES = PROOF_MODULES + [m for m in ['Compute.Lemmas.Rounding7', 'Compute.Props.Rounding7'] if m not in PROOF_MODULES]
 REQUIRED_THEOREMS = REQUIRED_THEOREMS + ['Cv.Rounding7.LM.lm_fixed_iff', 'Cv.Rounding7.LM.lm_rss_decrease', 'Cv.Rounding7.LM.lm_linear_rho_pos', 'Cv.Rounding7.LM.lm_mu_update_lt_two', 'Cv.Rounding7.LM.lm_error_recursion', 'Cv.Rounding7.LM.lm_contraction', 'Cv.Rounding7.LM.lm_geometric', 'Cv.Rounding7.LM.lm_rate_lt_one', 'Cv.Rounding7.LM.step_of_model']
 NOT_PROVED = [x for x in NOT_PROVED if not str(x).startswith('LM convergence')] + ['LM convergence on models linear in the parameters IS proved over the reals with the exact solver (Props/Rounding7, namespace LM): the fixed points of a step are exactly the least-squares solutions; every step strictly decreases the residual unless theta is one, and is accepted (gain ratio > 0), so the damping stays in [1/3, 2) after the first step; error recursion (A + lam D)(theta+ - theta*) = lam D (theta - theta*) and geometric convergence ||theta_k - theta*||^2_A <= (Lam kappa/(1+Lam kappa))^k ||theta_0 - theta*||^2_A for D <= kappa J^T J (full column rank) and lam <= Lam; one step of lmBody is tied to this (step_of_model); the stop tests (eps1/eps2), nonlinear models and floating point are oracle only']
+
+# --- deep theorems (Rounding8, wired by the lead)
+PROOF_MODULES = PROOF_MODULES + [m for m in ['Compute.Lemmas.Rounding8', 'Compute.Props.Rounding8'] if m not in PROOF_MODULES]
+REQUIRED_THEOREMS = REQUIRED_THEOREMS + ["Cv.Rounding8.LMrun.lmBody_cases'", 'Cv.Rounding8.LMrun.pass_step', 'Cv.Rounding8.LMrun.pass_linear', 'Cv.Rounding8.LMrun.lmLoop_linear', 'Cv.Rounding8.LMrun.linInv_start', 'Cv.Rounding8.LMrun.stop_eps1', 'Cv.Rounding8.LMrun.stop_eps2', 'Cv.Rounding8.LMrun.errA_le_of_grad', 'Cv.Rounding8.LMrun.weighted_cs']
+NOT_PROVED = list(NOT_PROVED) + ["the model's LM loop itself is covered on linear models (Props/Rounding8, namespace LMrun): for an evaluator that is a linear model (LinModel) every pass of lmBody keeps the invariant mu <= max(mu_0, 2), a step is rejected only at a least-squares solution, and lmLoop returns a state with ||theta - theta*||^2_A <= q^fuel ||theta_0 - theta*||^2_A, q = Lam kappa/(1+Lam kappa), unless a stop test fired; stopped by eps1: sum |J^T(y - J theta)| <= eps1, stopped by eps2: (J^T r)_i^2 <= ||B_i||^2 (eps2(||theta|| + eps2))^2, both giving ||theta - theta*||^2_A <= kappa sum g_i^2/d_i; kappa (D <= kappa J^T J, i.e. full column rank) is a hypothesis; nonlinear models and floating point are oracle only"]
